@@ -324,7 +324,18 @@ class Flattener:
 
         def literal_items(it):
             """items of a literal, of enumerate(literal) as (index, item) pairs, of zip(literal, literal)"""
+            if isinstance(it, ast.Attribute) and isinstance(it.value, ast.Name) and it.value.id in ('self', 'cls') and \
+               self.func.cls is not None:
+                # a class-level table of constants (never stored on an instance)
+                from .symx import class_constants
+                tbl = class_constants(self.ctx, self.func.cls).get(it.attr)
+                if isinstance(tbl, ast.Tuple) and all(isinstance(r_, ast.Tuple) and all(plain(x_) for x_ in r_.elts) or plain(r_)
+                                                      for r_ in tbl.elts):
+                    return [_clone(r_) for r_ in tbl.elts]
             if isinstance(it, (ast.Tuple, ast.List)) and all(plain(e) for e in it.elts):
+                return list(it.elts)
+            if isinstance(it, (ast.Tuple, ast.List)) and it.elts and all(
+                    isinstance(r_, ast.Tuple) and all(plain(x_) for x_ in r_.elts) for r_ in it.elts):
                 return list(it.elts)
             if isinstance(it, ast.Call) and isinstance(it.func, ast.Name) and not it.keywords:
                 if it.func.id == 'enumerate' and len(it.args) == 1:
@@ -363,6 +374,33 @@ class Flattener:
             for y in ast.walk(v):
                 ast.copy_location(y, like)
             return v
+        if isinstance(st, ast.Assign) and len(st.targets) == 1 and isinstance(st.targets[0], ast.Name):
+            # X = dict((k, E(k)) for k in (c1, c2)) / X = {k: E(k) for k in (c1, c2)}  ->  X = {}; X[c1] = E(c1); X[c2] = E(c2)
+            v = st.value
+            comp = None
+            if isinstance(v, ast.Call) and isinstance(v.func, ast.Name) and v.func.id == 'dict' and len(v.args) == 1 and \
+               not v.keywords and isinstance(v.args[0], (ast.GeneratorExp, ast.ListComp)) and \
+               isinstance(v.args[0].elt, ast.Tuple) and len(v.args[0].elt.elts) == 2:
+                comp, kx, vx = v.args[0], v.args[0].elt.elts[0], v.args[0].elt.elts[1]
+            elif isinstance(v, ast.DictComp):
+                comp, kx, vx = v, v.key, v.value
+            if comp is not None and len(comp.generators) == 1 and not comp.generators[0].ifs and \
+               isinstance(comp.generators[0].target, ast.Name):
+                items = literal_items(comp.generators[0].iter)
+                tn = comp.generators[0].target.id
+                if items is not None and 1 <= len(items) <= 6 and all(plain(i_) for i_ in items):
+                    init = ast.Assign(targets=[_clone(st.targets[0])], value=ast.Dict(keys=[], values=[]))
+                    ast.copy_location(init, st)
+                    ast.fix_missing_locations(init)
+                    out = [init]
+                    for it_ in items:
+                        a = ast.Assign(targets=[ast.Subscript(value=ast.Name(id=st.targets[0].id, ctx=ast.Load()),
+                                                              slice=put(kx, tn, it_), ctx=ast.Store())],
+                                       value=put(vx, tn, it_))
+                        ast.copy_location(a, st)
+                        ast.fix_missing_locations(a)
+                        out.append(a)
+                    return out
         if isinstance(st, ast.Assign) and len(st.targets) == 1 and isinstance(st.targets[0], ast.Tuple) and \
            isinstance(st.value, (ast.GeneratorExp, ast.ListComp)) and len(st.value.generators) == 1:
             g = st.value.generators[0]
@@ -479,6 +517,123 @@ class Flattener:
         return pre + [st]
 
 
+def _const_key(sl):
+    """identifier fragment for a constant subscript (int / float / identifier-like string, also negative), else None"""
+    neg = ''
+    if isinstance(sl, ast.UnaryOp) and isinstance(sl.op, ast.USub):
+        neg, sl = 'm', sl.operand
+    if not isinstance(sl, ast.Constant) or isinstance(sl.value, bool):
+        return None
+    v = sl.value
+    if isinstance(v, (int, float)):
+        if v < 0:
+            neg, v = 'm', -v
+        return neg + str(v).replace('.', '_').replace('+', '').replace('-', 'm')
+    if isinstance(v, str) and v.isidentifier() and not neg:
+        return v
+    return None
+
+
+def _scalarise_tables(node):
+    """a local that starts as {} / dict() and is only ever used as NAME[<constant>] (after the loops over literal
+    tables were spelled out) is a handful of scalars: NAME[0] -> NAME__0"""
+    inits = {}
+    for s in ast.walk(node):
+        if isinstance(s, ast.Assign) and len(s.targets) == 1 and isinstance(s.targets[0], ast.Name):
+            v = s.value
+            empty = (isinstance(v, ast.Dict) and not v.keys) or (
+                isinstance(v, ast.Call) and isinstance(v.func, ast.Name) and v.func.id == 'dict' and not v.args and not v.keywords)
+            inits.setdefault(s.targets[0].id, []).append(empty)
+    names = {k for k, v in inits.items() if v == [True]}
+    if not names:
+        return
+    ok = set(names)
+    parents = {}
+    for x in ast.walk(node):
+        for ch in ast.iter_child_nodes(x):
+            parents[id(ch)] = x
+    for n in ast.walk(node):
+        if isinstance(n, ast.Name) and n.id in ok:
+            p = parents.get(id(n))
+            if isinstance(p, ast.Assign) and p.targets and p.targets[0] is n:
+                continue
+            if not (isinstance(p, ast.Subscript) and p.value is n and _const_key(p.slice) is not None):
+                ok.discard(n.id)
+    if not ok:
+        return
+
+    def rec(x):
+        for fld, val in ast.iter_fields(x):
+            if isinstance(val, list):
+                for i_, y in enumerate(val):
+                    if isinstance(y, ast.AST):
+                        val[i_] = fix(y)
+            elif isinstance(val, ast.AST):
+                setattr(x, fld, fix(val))
+
+    def fix(y):
+        if isinstance(y, ast.Subscript) and isinstance(y.value, ast.Name) and y.value.id in ok and _const_key(y.slice) is not None:
+            new = ast.Name(id='%s__%s' % (y.value.id, _const_key(y.slice)), ctx=y.ctx.__class__())
+            return ast.copy_location(new, y)
+        rec(y)
+        return y
+    rec(node)
+
+
+def _propagate_self_aliases(node):
+    """`pulses = self.pulses` (assigned once, the attribute not stored in the function): the local is another
+    name of the attribute - its loads are written as the attribute, so that rules keyed on `self.x.y` see them"""
+    asg = {}
+    stored_attrs = set()
+    params = {a.arg for a in node.args.posonlyargs + node.args.args + node.args.kwonlyargs}
+    for s in ast.walk(node):
+        if isinstance(s, ast.Assign):
+            for t in s.targets:
+                for n in ast.walk(t):
+                    if isinstance(n, ast.Name):
+                        asg.setdefault(n.id, []).append(s if (len(s.targets) == 1 and t is n) else None)
+        elif isinstance(s, (ast.AugAssign, ast.AnnAssign, ast.For, ast.With, ast.comprehension, ast.NamedExpr)):
+            tg = getattr(s, 'target', None)
+            for n in ast.walk(tg) if tg is not None else []:
+                if isinstance(n, ast.Name):
+                    asg.setdefault(n.id, []).append(None)
+        if isinstance(s, ast.Attribute) and isinstance(s.ctx, (ast.Store, ast.Del)):
+            stored_attrs.add(s.attr)
+    alias = {}
+    for nm, lst in asg.items():
+        if nm in params or len(lst) != 1 or lst[0] is None:
+            continue
+        v = lst[0].value
+        chain = []
+        b = v
+        while isinstance(b, ast.Attribute):
+            chain.append(b.attr)
+            b = b.value
+        if isinstance(b, ast.Name) and b.id == 'self' and 1 <= len(chain) <= 2 and not (set(chain) & stored_attrs):
+            alias[nm] = v
+    if not alias:
+        return
+
+    def rec(x):
+        for fld, val in ast.iter_fields(x):
+            if isinstance(val, list):
+                for i_, y in enumerate(val):
+                    if isinstance(y, ast.AST):
+                        val[i_] = fix(y)
+            elif isinstance(val, ast.AST):
+                setattr(x, fld, fix(val))
+
+    def fix(y):
+        if isinstance(y, ast.Name) and isinstance(y.ctx, ast.Load) and y.id in alias:
+            new = _clone(alias[y.id])
+            for z in ast.walk(new):
+                ast.copy_location(z, y)
+            return new
+        rec(y)
+        return y
+    rec(node)
+
+
 def flatten(ctx, func, depth=3):
     """synthetic Func: func with its private helpers inlined (cached on ctx)"""
     cache = ctx.__dict__.setdefault('_flat', {})
@@ -495,6 +650,8 @@ def flatten(ctx, func, depth=3):
     if body and isinstance(body[0], ast.Expr) and isinstance(body[0].value, ast.Constant) and isinstance(body[0].value.value, str):
         doc, body = body[:1], body[1:]
     node.body = doc + fl.block(body, [func.qual])
+    _scalarise_tables(node)
+    _propagate_self_aliases(node)
     ast.fix_missing_locations(node)
     _set_parents(node)
     g = Func(func.module, func.cls, node, func.kind)
